@@ -39,6 +39,12 @@ type H struct {
 	// contains the panic; a Once handler that ran - panicking or not - has
 	// fired and is retired.
 	Panics bool `json:"panics,omitempty"`
+	// Quits 1..4 (Once, not Ctx; sequential histories): while it runs the
+	// handler unsubscribes itself.  Every quitting handler of a case has a
+	// function of its own (slot Quits of its type), so the call can only hit
+	// its own registration: a Once handler that has fired is retired with or
+	// without it, and every other registration is left alone.
+	Quits int `json:"quits,omitempty"`
 }
 
 // Step of a sequential history.
@@ -91,6 +97,7 @@ type calls struct {
 type armed struct {
 	*calls
 	arm     func()
+	quit    func()
 	cancels bool
 	panics  bool
 }
@@ -101,6 +108,9 @@ func (a *armed) hit(h, id int) {
 		if f, ok := pubCancels.Load(id); ok {
 			f.(context.CancelFunc)()
 		}
+	}
+	if a.quit != nil {
+		a.quit()
 	}
 	if a.arm != nil {
 		a.arm()
@@ -134,6 +144,38 @@ func subscribe(bus *eventbus.EventBus, src *busmodel.OptSource, h H, idx int, c0
 		opts = append(opts, src.Sequential())
 	}
 	opts = busmodel.Arrange(opts, idx%2 == 1) // odd handlers pass their options in reverse order
+	if h.Quits > 0 && h.Once && !h.Ctx {
+		if h.T == 0 {
+			opts = append(opts, filterOpt(h.Filter, func(e EvA) int { return e.ID })...)
+			var fn func(EvA)
+			switch h.Quits {
+			case 1:
+				fn = func(e EvA) { c.hit(idx, e.ID) }
+			case 2:
+				fn = func(e EvA) { c.hit(idx, e.ID) }
+			case 3:
+				fn = func(e EvA) { c.hit(idx, e.ID) }
+			default:
+				fn = func(e EvA) { c.hit(idx, e.ID) }
+			}
+			c.quit = func() { eventbus.Unsubscribe[EvA](bus, fn) }
+			return eventbus.Subscribe(bus, fn, opts...)
+		}
+		opts = append(opts, filterOpt(h.Filter, func(e EvB) int { return e.ID })...)
+		var fn func(EvB)
+		switch h.Quits {
+		case 1:
+			fn = func(e EvB) { c.hit(idx, e.ID) }
+		case 2:
+			fn = func(e EvB) { c.hit(idx, e.ID) }
+		case 3:
+			fn = func(e EvB) { c.hit(idx, e.ID) }
+		default:
+			fn = func(e EvB) { c.hit(idx, e.ID) }
+		}
+		c.quit = func() { eventbus.Unsubscribe[EvB](bus, fn) }
+		return eventbus.Subscribe(bus, fn, opts...)
+	}
 	if h.T == 0 {
 		opts = append(opts, filterOpt(h.Filter, func(e EvA) int { return e.ID })...)
 		if h.Ctx {
@@ -251,6 +293,7 @@ func RunSeq(c *SeqCase) *vkit.Outcome {
 		}
 	}
 	armedAny, midCancel := false, false
+	quitFired, quitTogether := 0, false
 	for si, s := range c.Steps {
 		switch s.K {
 		case "sub":
@@ -264,6 +307,7 @@ func RunSeq(c *SeqCase) *vkit.Outcome {
 			publish(bus, s.T, s.ID, s.Cancelled, s.UseCtx, s.Any)
 			bus.Wait()
 			var keep []*mreg
+			onceNow, quitNow := 0, 0
 			var newRegs []int     // handlers armed by Once handlers fired in this publish
 			cancelledNow := false // the publish context was cancelled by a handler of this publish
 			for _, r := range regs[s.T] {
@@ -287,11 +331,19 @@ func RunSeq(c *SeqCase) *vkit.Outcome {
 					if h.Arms > 0 && h.Arms <= len(c.Handlers) {
 						newRegs = append(newRegs, h.Arms-1)
 					}
+					onceNow++
+					if h.Quits > 0 && !h.Ctx {
+						quitNow++
+					}
 					continue // consumed
 				}
 				keep = append(keep, r)
 			}
 			regs[s.T] = keep
+			quitFired += quitNow
+			if quitNow > 0 && onceNow >= 2 {
+				quitTogether = true
+			}
 			// registrations made from inside this publish do not receive it
 			for _, a := range newRegs {
 				regs[c.Handlers[a].T] = append(regs[c.Handlers[a].T], &mreg{h: a})
@@ -333,6 +385,12 @@ func RunSeq(c *SeqCase) *vkit.Outcome {
 	}
 	if armedAny {
 		o.Class("once_handler_subscribed_its_successor_while_running")
+	}
+	if quitFired >= 1 {
+		o.Class("once_handler_unsubscribed_itself_while_running")
+	}
+	if quitTogether {
+		o.Class("self_unsubscribing_once_handler_fired_with_another_once_handler_by_one_publish")
 	}
 	if midCancel {
 		o.Class("publish_context_cancelled_by_a_handler_during_dispatch")
